@@ -101,7 +101,8 @@ func (p *Program) initAllowed(path string) bool {
 	switch path {
 	case "strconv", "strings", "sort", "slices", "cmp", "iter", "math", "math/bits", "bytes",
 		"encoding/binary", "unicode", "unicode/utf8", "unicode/utf16", "math/big", "internal/strconv",
-		"internal/stringslite", "internal/byteorder":
+		"internal/stringslite", "internal/byteorder",
+		"google.golang.org/protobuf/reflect/protoreflect": // package vars = type ids (ext_proto.go)
 		return true
 	}
 	return false
